@@ -108,9 +108,25 @@ FORMULAS = {
             "Gen.cellwise_convexe_is_code", "Gen.cellwise_convexe_scaled_is_code"],
     "C20": ["Gen.capNegative_is_code"],
 }
+# one Lean module per topic, so that a changed formula only breaks the theorems about it
+FORMULA_MODULE = {
+    "Gen.overprod_is_code": "FormulasOverprod",
+    "Gen.capacity_is_code": "FormulasProduction", "Gen.capNegative_is_code": "FormulasProduction", "Gen.xOpt_is_code": "FormulasProduction",
+    "Gen.cons_is_code": "FormulasProduction", "Gen.cons_base_is_code": "FormulasProduction", "Gen.production_max_is_code": "FormulasProduction",
+    "Gen.deliverCell_is_code": "FormulasDistribute", "Gen.deliveries_are_code": "FormulasDistribute", "Gen.stockUse_is_code": "FormulasDistribute",
+    "Gen.stockUpdated_is_code": "FormulasDistribute", "Gen.subBlock_is_code": "FormulasDistribute",
+    "Gen.needWith_is_code": "FormulasOrders", "Gen.zProd_is_code": "FormulasOrders", "Gen.altShare_is_code": "FormulasOrders",
+    "Gen.ordersFrom_is_code": "FormulasOrders",
+    "Gen.linear_is_code": "FormulasCurves", "Gen.convexe_is_code": "FormulasCurves", "Gen.convexe_scaled_is_code": "FormulasCurves",
+    "Gen.cellwise_linear_is_code": "FormulasCurves", "Gen.cellwise_convexe_is_code": "FormulasCurves",
+    "Gen.cellwise_convexe_scaled_is_code": "FormulasCurves",
+}
 for _pid, _names in FORMULAS.items():
     THEOREMS[_pid] = THEOREMS[_pid] + _names
-    MODULES[_pid] = MODULES[_pid] + ["Boario.Properties.Formulas"]
+    for _n in _names:
+        _m = "Boario.Properties." + FORMULA_MODULE[_n]
+        if _m not in MODULES[_pid]:
+            MODULES[_pid] = MODULES[_pid] + [_m]
 for _pid, _names in NONVACUITY.items():
     THEOREMS[_pid] = THEOREMS[_pid] + [n for n in _names if n not in THEOREMS[_pid]]
     MODULES[_pid] = MODULES[_pid] + ["Boario.Properties.NonVacuity"] + (["Boario.Properties.LoopThm"] if _pid in ("C01", "C10") else [])
